@@ -110,10 +110,19 @@ def run(repo, rep, tier):
         "char_escape) to the compiler factory in this order",
         construct="parse-forwards", where=L.where(pf))
     cf = repo.func("chameleon.utils.create_formatted_exception")
-    al = [c for c in ast.walk(cf.node) if isinstance(c, ast.Call)
-          and src(c.func) in ("allocator", "BaseException.__new__")]
-    rep.check(len(al) >= 2 and all(c.args and src(c.args[0]) == "new"
-                                   for c in al), "R12.5", cf.qualname,
+    made_ = {src(a_.targets[0]) for a_ in ast.walk(cf.node)
+             if isinstance(a_, ast.Assign) and isinstance(a_.value, ast.Call)
+             and src(a_.value.func) == "type" and len(a_.value.args) == 3}
+    alloc_ = {a_.targets[0].id for a_ in ast.walk(cf.node)
+              if isinstance(a_, ast.Assign)
+              and isinstance(a_.targets[0], ast.Name)
+              and "__new__" in src(a_.value)}
+    al = [c for c in ast.walk(cf.node) if isinstance(c, ast.Call) and (
+        isinstance(c.func, ast.Name) and c.func.id in alloc_ or
+        isinstance(c.func, ast.Attribute) and c.func.attr == "__new__")]
+    rep.check(len(al) >= 2 and bool(made_) and all(
+        c.args and src(c.args[0]) in made_ for c in al), "R12.5",
+        cf.qualname,
               "both allocations make an instance of the decorated class",
               construct="allocated-as-decorated-class", where=L.where(cf))
     L.state_rule(repo, rep)
